@@ -328,7 +328,7 @@ func (w *World) encoderTagSets() map[string]ISet {
 		}
 	}
 	// container headers: the first octets the container writers hand to the byte writer
-	for _, fname := range []string{"(*Encoder).writeList", "(*Encoder).writeMap", "(*Encoder).writeObject", "(*Encoder).writeRef", "(*Encoder).writeClsDef"} {
+	for _, fname := range []string{"(*Encoder).writeList", "(*Encoder).writeMap", "(*Encoder).writeObject", "(*Encoder).writeRef"} {
 		fn := w.role(fname)
 		if fn == nil {
 			continue
@@ -344,7 +344,14 @@ func (w *World) encoderTagSets() map[string]ISet {
 					s, _ = w.evalEv(e.Args[0], e.Env)
 				}
 				if s != nil {
-					out["container:"+fname] = out["container:"+fname].Union(s)
+					// the object writer emits two productions: the definition ('C') and the instance
+					if def := s.Intersect(single('C')); fname == "(*Encoder).writeObject" && !def.Empty() {
+						out["container:classdef"] = out["container:classdef"].Union(def)
+						s = s.Minus(single('C'))
+					}
+					if !s.Empty() {
+						out["container:"+fname] = out["container:"+fname].Union(s)
+					}
 				}
 			}
 		}
@@ -456,7 +463,7 @@ func (w *World) ruleEmittedTagsDispatch(r *Report, rule string) {
 					want = []string{"object-short", "object-long"}
 				case "container:(*Encoder).writeRef":
 					want = []string{"ref"}
-				case "container:(*Encoder).writeClsDef":
+				case "container:classdef":
 					want = []string{"classdef"}
 				case "container:(*Encoder).WriteData":
 					want = []string{"null"}
